@@ -1448,7 +1448,10 @@ def run_worker(spec: Dict[str, Any], real: bool = False) -> RunResult:
 
                     sc.trace.add("send_err", None, tok=tok, exc=type(exc).__name__,
                                  cause=type(exc.__cause__).__name__, is_send_error=isinstance(exc, SendTaskError))
-            await asyncio.gather(*[_send(s) for s in sends])
+            await asyncio.gather(*[_send(s) for s in sends if not s.get("late")])
+            for s_late in [s for s in sends if s.get("late")]:
+                # sent while the worker is running (the client calls the task again later)
+                loop.call_at(T0 + s_late["at"], lambda s_late=s_late: sc.keep.append(asyncio.ensure_future(_send(dict(s_late, at=0)))))
         for ft in spec.get("stream_faults", []):
             loop.call_at(T0 + ft, broker._fault)
         for at, f, tname, labels in sc.late:
